@@ -421,12 +421,24 @@ pub fn abstract_ne(first: &Value, second: &Value) -> bool {
 
 /// Provide abstract <= comparisons
 pub fn abstract_lte(first: &Value, second: &Value) -> bool {
-    abstract_lt(first, second) || abstract_eq(first, second)
+    match (
+        to_primitive(first, PrimitiveHint::Number),
+        to_primitive(second, PrimitiveHint::Number),
+    ) {
+        (Primitive::String(f), Primitive::String(s)) => f <= s,
+        (Primitive::Number(f), Primitive::Number(s)) => f <= s,
+        (Primitive::String(f), Primitive::Number(s)) => {
+            str_to_number(f).map(|f| f <= s).unwrap_or(false)
+        }
+        (Primitive::Number(f), Primitive::String(s)) => {
+            str_to_number(s).map(|s| f <= s).unwrap_or(false)
+        }
+    }
 }
 
 /// Provide abstract >= comparisons
 pub fn abstract_gte(first: &Value, second: &Value) -> bool {
-    abstract_gt(first, second) || abstract_eq(first, second)
+    abstract_lte(second, first)
 }
 
 /// Get the max of an array of values, performing abstract type conversion
